@@ -78,7 +78,7 @@ package layer4
 //@ ensures[C01] rpos(cx.Conn) - old(rpos(cx.Conn)) == len(cx.buf) - old(len(cx.buf)) && len(cx.buf) >= old(len(cx.buf))
 //@ ensures[C05] len(cx.buf) < MaxMatchingBytes + prefetchChunkSize || len(cx.buf) == old(len(cx.buf))
 //@ ensures[C05] old(len(cx.buf)) >= MaxMatchingBytes ==> err == ErrMatchingBufferFull && rpos(cx.Conn) == old(rpos(cx.Conn)) && sameslice(cx.buf, old(cx.buf))
-//@ ensures[C01] !inpool(arr(cx.buf))
+//@ ensures[C01] isnil(cx.buf) || !inpool(arr(cx.buf))
 
 // Wrap: the new connection starts with an empty buffer over conn (the bytes still buffered in cx reach
 // it through conn, which reads from cx), hence is well formed whatever cx's buffer holds.
